@@ -230,9 +230,32 @@ impl ReassignmentPath {
     }
 }
 
+impl Dependencies for ReassignmentPath {
+    /// The target of a reassignment mentions variables as well: the container or object that is
+    /// written to, index expressions, and arguments of method calls along the way.
+    fn dependencies(&self) -> Vec<super::Dependency> {
+        match self {
+            Self::Ident(ident) => ident.net_dependencies(),
+            Self::ReferenceToSelf(..) => vec![],
+            Self::Index { lhs, index } => {
+                let mut result = lhs.net_dependencies();
+                result.append(&mut index.net_dependencies());
+                result
+            }
+            Self::DotLookup { lhs, dot_chain, .. } => {
+                let mut result = lhs.net_dependencies();
+                result.append(&mut dot_chain.net_dependencies());
+                result
+            }
+        }
+    }
+}
+
 impl Dependencies for Reassignment {
     fn dependencies(&self) -> Vec<super::Dependency> {
-        self.value.net_dependencies()
+        let mut result = self.path.net_dependencies();
+        result.append(&mut self.value.net_dependencies());
+        result
     }
 }
 
